@@ -19,6 +19,7 @@ let berr_str = function
   | ETooComplex -> "too_complex"
   | EInvalidCaptureIdx n -> "invalid_capture_index" ^ string_of_int (int_of_z n)
   | EInvalidPct -> "invalid_pct"
+  | EMissingBracket -> "missing_bracket"
 
 let kind_str = function Once -> "o" | Star -> "*" | Plus -> "+" | Lazy -> "-" | Opt -> "?"
 let item_str = function
@@ -93,8 +94,13 @@ let () =
          if mode = "a" then begin
            add "F" (dres_str (fst (find_im p fuel s Z0 (ptn = []) init)) ^ "|" ^ dres_str (find_s p s init));
            add "M" (dres_str (fst (match_im p fuel s Z0 init)) ^ "|" ^ dres_str (match_s p s init));
-           let (l, fin) = gmatch_im p fuel s Z0 init in
-           add "GM" (seq_str l (dres_str fin) ^ "|" ^ seq_str (gmatch_s p s init) "nil");
+           (* gmatch compiles "%" .. ptn when ptn starts with ^ (Drivers.gmatch_pattern) *)
+           (match build (gmatch_pattern ptn) with
+            | Ok pg ->
+              let (l, fin) = gmatch_im pg fuel s Z0 init in
+              add "GM" (seq_str l (dres_str fin) ^ "|" ^ seq_str (gmatch_s pg s init) "nil")
+            | Err e -> add "GM" ("E" ^ berr_str e ^ "|E" ^ berr_str e)
+            | _ -> add "GM" "fuel|fuel");
            if !argerr then add "GS" "Enot_integer|Enot_integer|" else
            let (r, sk) = gsub_im p fuel s Z0 repl maxn in
            add "GS" (dres_str r ^ "|" ^ dres_str (gsub_s p s repl maxn) ^ "|"
